@@ -37,6 +37,7 @@ OBLIGATIONS = [
 ]
 
 PROPERTIES = {
+    'C06': dict(obligations=['UNI-RT']),
     'C09': dict(obligations=['UNI-RT', 'UNI-ENC8', 'UNI-ENC16', 'UNI-COMM'],
                 not_decided='that the passes between tokenizer and output never edit code points inside chunk texts; '
                             'UncText::c_str (log text only)'),
